@@ -9,6 +9,7 @@
    orders, deep snapshots): that half is correspondence, not proof. *)
 From Coq Require Import List NArith Permutation.
 From Astisub Require Import Kit.Base Kit.GoMap Model.Srt Model.Vtt Proofs.VttIOProofs.
+From Astisub Require Import Model.Ttml Proofs.TtmlIO.
 Import ListNotations.
 
 Theorem C19_sorted_range_independent : forall (V A : Type) (m : list (N * V)) (order order' : list N)
@@ -27,9 +28,18 @@ Theorem C19_vtt_deterministic : forall d so so' ro ro',
   Permutation so so' -> Permutation ro ro' -> write_vtt d so ro = write_vtt d so' ro'.
 Proof. exact write_vtt_order_independent. Qed.
 
+(* the TTML writer model (bytes) has no clock and no iteration-order input: its bytes are a function of the
+   document value and the indent option; the style and region tables enter as association lists and the bytes do
+   not depend on the order in which they are listed (keys distinct, as in a Go map) *)
+Theorem C19_ttml_deterministic : forall ind meta items st st' rg rg',
+  Permutation st st' -> Permutation rg rg' -> NoDup (map fst st) -> NoDup (map fst rg) ->
+  write_ttml_bytes ind (mkDoc meta st rg items) = write_ttml_bytes ind (mkDoc meta st' rg' items).
+Proof. exact write_ttml_bytes_perm. Qed.
+
 Example C19_example : nsort [3; 1; 2]%N = nsort [2; 3; 1]%N. Proof. reflexivity. Qed.
 
 Print Assumptions C19_sorted_range_independent.
 Print Assumptions C19_sort_forgets_order.
 Print Assumptions C19_srt_deterministic.
 Print Assumptions C19_vtt_deterministic.
+Print Assumptions C19_ttml_deterministic.
